@@ -7,12 +7,16 @@ claimed={
  "C01":("exploration","4.C01/3.C01",SIM+"drain-on-fork oracle after every transaction)","Seeded exploration of multi-actor histories with faults; after every landed transaction a full withdrawal/collection drain is replayed on a fork through the real handlers and the real SPL Token processor, plus conservation, an arithmetic claim bound, CPI-failure atomicity and single-party round-trip probes. Sampling, not proof: a clean batch is evidence over the explored histories only."),
  "C03":("exploration","3.C03",SIM+"balance-delta oracle and threshold +-1 forks on swaps that land on stale views)","Every landed swap (planned on a view that went stale in flight) is checked from balance deltas and pool bytes against the stated bounds; one third are replayed on forks with threshold = realised, -1, +1. Two-hop swaps are covered by C17's check. Sampling over reached pool states."),
  "C05":("exploration","3.C05",SIM+"independent byte-level recomputation of pool/tick aggregates after every transaction)","After every landed transaction the pool liquidity and every tick's net/gross/initialized flag are recomputed from the position accounts with the simulator's own decoders, for both tick-array encodings. Sampling over histories."),
+ "C07":("exploration","3.C07",SIM+"exact rational shadow ledger of per-step LP fees vs credited fee_owed)","An exact rational shadow ledger distributes each traced swap step's LP fee over the positions in range at that step; every credit to a position is bounded above by its exact share and below by the share minus bounded rounding (overflow carve-out as documented), including accumulators fast-forwarded to just below wrap-around and ticks (de)initialised by other actors. Sampling over histories."),
+ "C08":("exploration","3.C08",SIM+"balance-delta oracle with exact big-integer amounts, bound-edge forks, add-then-remove forks)","Instruction-level: every landed liquidity instruction (Pinocchio live path; the Anchor twin is compared in C12) is checked from balance deltas against exact amounts and rounding directions, with max/min edge cases and add-then-remove replayed on forks. The all-inputs quantifier over the pure conversion functions is not covered by this technique; only states that histories reach."),
  "C06":("exploration","3.C06",SIM+"per-step swap trace reconciled with exact big-integer arithmetic, balances and events)","The per-step trace of every landed swap (hook H1) is accepted only if it chains pre-state to post-state, then each step's curve amounts, fee, protocol share and LP growth increment are recomputed exactly and reconciled with account deltas, vault balances and the Traded event; protocol-fee collections are checked to pay exactly what is owed and reset it. Sampling over reached states."),
 }
 notes={
  "C01":"runtime stub, real SPL Token processor, plain SPL mints only (transfer-fee tokens are C16, reward vaults C11); no locked positions in these worlds; a drain step failing for a reason other than lack of funds is recorded as an observation",
  "C03":"runtime stub; single swaps v1/v2 on plain SPL pools; forks replay the same transaction bytes with only the threshold changed",
  "C05":"runtime stub; positions and arrays are found by scanning program-owned accounts; tick->price conversion is not involved",
+ "C07":"hook H1 trace (validated by C06/C10 style chaining); attribution assumes C05 (a step whose liquidity is not the sum of in-range positions is skipped and recorded, never alarmed here)",
+ "C08":"plain SPL pools; tick->sqrt-price from the program; reached states only (not the full input domain of the pure functions)",
  "C06":"hook H1 trace is treated as a claim (must chain and reconcile with balances); tick->sqrt-price from the program; plain SPL pools for balance equalities",
 }
 na={
